@@ -3,14 +3,14 @@ package props
 
 import (
 	"crypto/sha256"
-	"encoding/json"
-	"os"
-	"runtime/debug"
-	"strings"
 	"encoding/hex"
+	"encoding/json"
 	"fmt"
 	"math/rand"
+	"os"
+	"runtime/debug"
 	"sort"
+	"strings"
 
 	"olsim/core"
 	"olsim/gen"
@@ -24,7 +24,7 @@ type RunOut struct {
 	NonTrivial bool
 	Foreign    []string // signals that belong to other properties (never change this check's verdict)
 	HarnessErr string
-	Inputs     int // property-specific count of evaluated inputs (mutants, resubmissions, ...)
+	Inputs     int      // property-specific count of evaluated inputs (mutants, resubmissions, ...)
 	SubEvals   int      // for batch properties: independent cases evaluated inside this run
 	SubFP      []string // fingerprints of the non-trivial cases inside this run
 	Digest     string   // hash of everything observable in the run (determinism self-test)
@@ -65,16 +65,16 @@ type Setup struct {
 	MaxTx    int
 	Between  func(e *core.Engine, rng *rand.Rand, blockNo int) []*core.Step
 	PlanHook func(e *core.Engine, rng *rand.Rand, st *core.Step, gc *gen.Ctx) // last word on the block step (absences, dt, byzantine txs)
-	PreBlock func(e *core.Engine, rng *rand.Rand, st *core.Step) []*core.Step  // steps to run right before the planned block (e.g. CheckTx of its inputs)
+	PreBlock func(e *core.Engine, rng *rand.Rand, st *core.Step) []*core.Step // steps to run right before the planned block (e.g. CheckTx of its inputs)
 	Extra    []byte
 	Sess     *gen.Session // optional: created by MakeSetup so that the policy can see emitted txs
 }
 
 // ClusterProp is the shared implementation for properties decided on a simulated cluster.
 type ClusterProp struct {
-	Id        string
-	RuleText  string
-	MakeSetup func(rng *rand.Rand, tier string, seed uint64) *Setup
+	Id         string
+	RuleText   string
+	MakeSetup  func(rng *rand.Rand, tier string, seed uint64) *Setup
 	MakeOracle func(e *core.Engine, tr *core.Trace) Oracle
 	atEnd      func(e *core.Engine)
 }
@@ -197,7 +197,9 @@ func (p *ClusterProp) Run(seed uint64, tier string, tr *core.Trace) (out *RunOut
 			for _, g := range su.Gens {
 				txs = append(txs, g.Gen(gc)...)
 			}
+			orig := append([]gen.Tx{}, txs...)
 			rng.Shuffle(len(txs), func(i, j int) { txs[i], txs[j] = txs[j], txs[i] })
+			gen.KeepGroupOrder(orig, txs)
 			if su.MaxTx > 0 && len(txs) > su.MaxTx {
 				txs = txs[:su.MaxTx]
 			}
@@ -294,11 +296,12 @@ func countTxs(e *core.Engine, st *core.Step) {
 
 // TranscriptOracle compares every attempt of every non-reference replica with the reference.
 type TranscriptOracle struct {
-	Prop    string
-	Name    string
-	checked map[int]int // replica -> number of attempts already compared (complete ones)
-	Compared int
+	Prop        string
+	Name        string
+	checked     map[int]int // replica -> number of attempts already compared (complete ones)
+	Compared    int
 	InitChecked map[int]bool
+	Events      bool // also compare the events of every delivered transaction
 }
 
 func NewTranscriptOracle(prop, name string) *TranscriptOracle {
@@ -333,6 +336,14 @@ func (o *TranscriptOracle) Check(e *core.Engine) []core.Violation {
 				o.checked[i] = len(r.Tr.Attempts)
 				return vs
 			}
+			if o.Events {
+				if d := core.CompareEvents(ra, a); d != "" {
+					vs = append(vs, core.Violation{Property: o.Prop, Oracle: o.Name, Sig: "events-differ",
+						Msg: fmt.Sprintf("replica %d (%s, restarts=%d, handshake=%v) vs reference: %s", i, r.Spec.Keys.Name, r.Restarts, a.Handshake, d)})
+					o.checked[i] = len(r.Tr.Attempts)
+					return vs
+				}
+			}
 			o.Compared++
 			// an attempt still in flight (not committed, replica up) is compared again later
 			if a.Committed || j < len(r.Tr.Attempts)-1 {
@@ -361,7 +372,7 @@ func (NopOracle) AfterStep(e *core.Engine, idx int, st *core.Step, stepErr error
 	return nil
 }
 func (NopOracle) Finish(e *core.Engine) []core.Violation { return nil }
-func (NopOracle) NonTrivial(e *core.Engine) bool       { return true }
+func (NopOracle) NonTrivial(e *core.Engine) bool         { return true }
 
 // diffNote lists the differing committed keys when the divergence is in the app hash and both
 // replicas are at the same height (diagnosis only).
